@@ -23,7 +23,11 @@ var changeCorpus = []hostile{
 	{`{"values":{"a":[1,2]}}`, true}, {`{"values":{"a":{"rid":"a..b"}}}`, true}, {`{"values":{"a":{"rid":"a.*"}}}`, true},
 	{`{"values":{"a":{"rid":12}}}`, true}, {`{"values":{"a":{"data":null}}}`, false}, {`{"values":{"a":{"data":}}}`, true},
 	{`{"values":{"a":{"rid":"t.k","soft":"yes"}}}`, true}, {`{"values":{"a":1},"values":{"a":2}}`, false},
-	{`{"values":{"a":1}} trailing`, true}, {`{"a":1,"b":2}`, false}, {`{"values":{"a":1e999}}`, false},
+	{`{"values":{"a":1}} trailing`, true},
+	// a valid property first, a rejected value object later in document order
+	{`{"values":{"a":51,"zz":{"action":"unknown"}}}`, true}, {`{"values":{"a":52,"zz":{"rid":"x","action":"delete"}}}`, true},
+	{`{"values":{"a":53,"zz":{"rid":""}}}`, true}, {`{"values":{"a":54,"zz":[1,2]}}`, true}, {`{"values":{"a":55,"zz":{"foo":"bar"}}}`, true},
+	{`{"values":{"b":"changed","a":56,"zz":{"rid":"a..b"}}}`, true}, {`{"a":57,"zz":{"action":"unknown"}}`, true}, {`{"a":1,"b":2}`, false}, {`{"values":{"a":1e999}}`, false},
 	{`{"values":{"` + strings.Repeat("k", 100000) + `":1}}`, false}, {strings.Repeat("[", 20000), true},
 	{`{"values":{"a":{"data":` + strings.Repeat("[", 12000) + strings.Repeat("]", 12000) + `}}}`, false},
 }
